@@ -574,8 +574,16 @@ func (f Field) GenWild(r *sim.Rand) int64 {
 		return f.TypeHi
 	case 3:
 		if f.Freq {
-			// near the 2.4 GHz switch, odd multiples of 100
-			return 2400000000 + int64(r.Intn(1000))*100
+			// every residue of the 100 Hz / 200 Hz steps, below and above the 2.4 GHz switch
+			off := []int64{0, 1, 2, 50, 99, 100, 101, 150, 199}[r.Intn(9)]
+			switch r.Intn(3) {
+			case 0:
+				return 2400000000 + int64(r.Intn(4000000))*200 + off
+			case 1:
+				return int64(r.Intn(12000000))*100 + off%100
+			default:
+				return 2400000000 + int64(r.Intn(1000))*100
+			}
 		}
 	}
 	span := uint64(f.TypeHi-f.TypeLo) + 1
